@@ -25,6 +25,16 @@ CHECKS = {
         text="Every accepted input of the Python program space (GramGen), the corpus (all harvested inputs incl. xonsh) and the xonsh generators is parsed; TLC validates the flattened tree row by row against AstShape.tla: field kinds against the ASDL table generated from CPython's ast module, child categories, Store/Del/Load context law, complete spans with start<=end inside the source; compile() must not report a malformed tree and may reject semantically only if the written-out Python is rejected too.",
         note="Trusted: ASDL table derived from the ast module docstrings; compile() of CPython 3.12.1; ast.unparse for the written-out Python. Rides on the other generators' bounds.",
         ref="5/C04"),
+    "C05": dict(
+        technique="TLC enumeration of context x construct from Xonsh.tla (translation table in the spec) -> real parser vs CPython on the written-out program; tree pairs + construct span trace-validated by TLC (AstEq.tla)",
+        text="Xonsh.tla holds the 27 constructs with their documented translations, 88 Load contexts (incl. xonsh contexts ${..}, @(..)) and 14 binding contexts; TLC enumerates context x construct, context x context x construct and binding pairs and computes both program texts; the real parser's tree for the xonsh text must equal CPython's tree for the written-out text (positions ignored), the construct's node must span exactly its text, binding targets get Store (checked through the tree equality). TLC validates every recorded pair.",
+        note="Trusted: the translation table (taken from tests/data/exprs); CPython parses the written-out program. Depth-2 nesting is sampled in quick, exhaustive in thorough; deeper nesting not enumerated.",
+        ref="5/C05"),
+    "C06": dict(
+        technique="TLC enumeration of command lines from Subproc.tla with the spec's own word-splitting model as oracle; projection of the real Call node trace-validated by TLC (WordSplit.tla)",
+        text="Subproc.tla enumerates piece sequences (65 pieces over the shell-word alphabet incl. number-like, operator-like, quoted, non-ASCII and compatibility-character spellings, $NAME, @(..), @$(..), nested forms) x gap assignments x the four bracket forms and computes the expected argument grouping (Words) and runtime function (Func); the real Call node is projected onto word descriptors and TLC validates projection = expectation per argument.",
+        note="Oracle is the model (independent of the tokenizer). Bounded: <=2 pieces over the whole alphabet, <=3 (quick) / <=4 (thorough) over core subsets.",
+        ref="5/C06"),
     "C08": dict(
         technique="trace validation: real token streams checked by TLC against the TokStream.tla law",
         text="Every finished token stream of the real tokenizer on the TLC-generated input spaces (CharGen sub-alphabets, soup, corpus x layouts) is validated by TLC against TokStream.tla (text=slice, order, gaps only indentation/continuation, line closure, INDENT/DEDENT balance, single ENDMARKER); the first failing clause is named.",
